@@ -183,4 +183,17 @@ theorem u64ToMac_macVal (b0 b1 b2 b3 b4 b5 : UInt8) :
     (e _ _ h2).1, (e _ _ h2).2, (e _ _ h1).1, (e _ _ h1).2, (e _ _ h0).1]
   simp only [UInt8.ofNat_toNat]
 
+/-- `purgeSubscriberState`'s comparison `k.SrcIP == ipToKey(a.b.c.d)` on four stored bytes holds exactly when the bytes in
+    memory are `d c b a` -/
+theorem purgeSelects_iff (a b c d s0 s1 s2 s3 : UInt8) :
+    purgeSelects a b c d [s0, s1, s2, s3] = true ↔ (s0 = d ∧ s1 = c ∧ s2 = b ∧ s3 = a) := by
+  have ha := a.toNat_lt; have hb := b.toNat_lt; have hc := c.toNat_lt; have hd := d.toNat_lt
+  have h0 := s0.toNat_lt; have h1 := s1.toNat_lt; have h2 := s2.toNat_lt; have h3 := s3.toNat_lt
+  simp only [purgeSelects, loadLE, leVal, beUint32_val, beq_iff_eq]
+  constructor
+  · intro h
+    refine ⟨UInt8.toNat_inj.mp ?_, UInt8.toNat_inj.mp ?_, UInt8.toNat_inj.mp ?_, UInt8.toNat_inj.mp ?_⟩ <;> omega
+  · rintro ⟨rfl, rfl, rfl, rfl⟩
+    omega
+
 end Bng.Proof.KeyEnc
